@@ -44,6 +44,7 @@ from paramiko.sftp import (
     int64,
 )
 from paramiko.sftp_attr import SFTPAttributes
+from paramiko.ssh_exception import SSHException
 
 
 class SFTPFile(BufferedFile):
@@ -111,7 +112,7 @@ class SFTPFile(BufferedFile):
                 self.sftp._async_request(type(None), CMD_CLOSE, self.handle)
             else:
                 self.sftp._request(CMD_CLOSE, self.handle)
-        except EOFError:
+        except (EOFError, SSHException):
             # may have outlived the Transport connection
             pass
         except (IOError, socket.error):
